@@ -38,6 +38,9 @@ type Inst struct {
 	Alerts *mgr.AlertMgr
 	Up     bool
 	Store  config.Store
+	// StartedAt is the simulated instant of the last Start(): the phase of every ticker of
+	// the instance (cleaners once a minute, announcements every five minutes, ...).
+	StartedAt time.Time
 }
 
 // ProbeEvent is one probe ping handed to a router's handler.
@@ -158,6 +161,7 @@ func Build(e *core.Env, o Options) *Mesh {
 	}
 	for _, i := range tp.Perm(n) {
 		x := ms.Insts[i]
+		x.StartedAt = time.Now()
 		if err := x.In.Start(); err != nil {
 			e.Infra("fullmesh: Start: %v", err)
 		}
